@@ -181,7 +181,7 @@ PROPS = {
   'quick': {'cases': 8000, 'max_size': 120, 'wall_s': 600},
   'thorough': {'cases': 160000, 'max_size': 150, 'wall_s': 2400},
   'sim': ['simsock', 'fakecurl', 'simclock'],
-  'essential_classes': ['path:percent-encoded', 'scheme:ksi', 'scheme:ksi+http', 'scheme:ksi+https', 'scheme:ksi+tcp', 'scheme:file', 'scheme:http', 'scheme:x-unknown', 'embedded-credentials', 'mixed-case-scheme', 'host:ipv6', 'port:boundary', 'async-refusal',
+  'essential_classes': ['fragment:with-question-mark', 'path:percent-encoded', 'scheme:ksi', 'scheme:ksi+http', 'scheme:ksi+https', 'scheme:ksi+tcp', 'scheme:file', 'scheme:http', 'scheme:x-unknown', 'embedded-credentials', 'mixed-case-scheme', 'host:ipv6', 'port:boundary', 'async-refusal',
                         'service:blocking-aggregator', 'service:blocking-extender', 'service:async-signing', 'service:async-extending', 'explicit:U-', 'explicit:-K', 'explicit:UK', 'explicit:--'],
   'assumptions': ['ports are generated as canonical decimals; percent-encoding in user-info is not generated'],
  }, 'C13': {
@@ -224,7 +224,7 @@ PROPS = {
   'quick': {'cases': 6400, 'max_size': 150, 'exhaustive': True, 'wall_s': 1200},
   'thorough': {'cases': 32000, 'max_size': 200, 'exhaustive': True, 'wall_s': 3400},
   'sim': ['simsock', 'fakecurl', 'simclock'],
-  'essential_classes': ['config:unsolicited-push', 'history:earlier-request-dropped-in-flight', 'single:response', 'single:all-failed', 'error-notice-seen', 'two-requests:cache-full-on-one-endpoint', 'config:extending', 'config:signing', 'config:with-out-of-range-value', 'endpoints:3'],
+  'essential_classes': ['single:request-with-configuration-part', 'single:extending-service', 'config:unsolicited-push', 'history:earlier-request-dropped-in-flight', 'single:response', 'single:all-failed', 'error-notice-seen', 'two-requests:cache-full-on-one-endpoint', 'config:extending', 'config:signing', 'config:with-out-of-range-value', 'endpoints:3'],
   'assumptions': ['simulated socket semantics as documented in sim/simnet.hpp'],
  }, 'C11': {
   'technique': 'stateful property testing (rapidcheck histories) with byte-equality invariants and a differential against fresh contexts',
@@ -318,7 +318,7 @@ PROPS = {
   'thorough': {'cases': 400000, 'max_size': 100, 'exhaustive': True, 'wall_s': 3400},
   'sim': ['simsock', 'fakecurl', 'simclock'],
   'leaks': True,
-  'essential_classes': ['fault:error-returned', 'fault:not-reached', 'op:signature-parse', 'op:sign-tcp', 'op:sign-http', 'op:extend-to-time', 'op:tree-builder', 'op:block-signer', 'op:async-sign', 'op:ha-sign', 'op:list-append-and-reuse', 'op:tlv-parse-nested-clone-serialize'],
+  'essential_classes': ['op:chain-aggregate-same-object-at-two-levels', 'fault:error-returned', 'fault:not-reached', 'op:signature-parse', 'op:sign-tcp', 'op:sign-http', 'op:extend-to-time', 'op:tree-builder', 'op:block-signer', 'op:async-sign', 'op:ha-sign', 'op:list-append-and-reuse', 'op:tlv-parse-nested-clone-serialize'],
   'assumptions': ['only allocations routed through KSI_malloc/KSI_calloc are failed', 'only the catalogue operations are covered'],
  },
 }
